@@ -33,6 +33,51 @@ M = {
  "c14-hold-unit": ("packet.go", "holdTime: uint16(holdTime.Truncate(time.Second).Seconds()),", "holdTime: uint16(holdTime.Truncate(time.Second).Milliseconds() / 1000 * 1),", []),
  "c14-unfix-d6": ("packet.go", "\tif len(caps) > math.MaxUint8 {\n\t\treturn nil, errors.New(\"capabilities exceed 255 bytes\")\n\t}\n", "", ["C14"]),
  "c05-unfix-d2": ("fsm.go", "\t\t\t\t\tf.keepAliveTimer = newStoppedTimer()\n", "", ["C02", "C05", "C06"]),
+ # ---- wave 2 ----
+ "c01-no-disable-other": ("peer.go", "\tcase t.to == establishedState:\n\t\t// disable the other fsm\n\t\tp.disableFSM(other(i))\n", "\tcase t.to == establishedState:\n\t\t// disable the other fsm\n", ["C01", "C07"]),
+ "c01-accept-in-while-established": ("peer.go", "if p.fsms[in] != nil || p.fsmState[out] == establishedState {", "if p.fsms[in] != nil {", ["C01", "C07", "C13"]),
+ "c01-skip-onclose-disabled": ("fsm.go", "\tf.keepAliveTimer.Stop()\n\tf.peer.plugin.OnClose(f.peer.config)\n\treturn to, err", "\tf.keepAliveTimer.Stop()\n\tif to != disabledState {\n\t\tf.peer.plugin.OnClose(f.peer.config)\n\t}\n\treturn to, err", ["C01", "C10"]),
+ "c01-getcaps-twice": ("fsm.go", "\tcapabilities := f.peer.plugin.GetCapabilities(f.peer.config)\n", "\tcapabilities := f.peer.plugin.GetCapabilities(f.peer.config)\n\tif f.peer.options.passive {\n\t\tcapabilities = f.peer.plugin.GetCapabilities(f.peer.config)\n\t}\n", ["C01"]),
+ "c06-ka-half": ("fsm.go", "f.keepAliveInterval = f.holdTime / 3", "f.keepAliveInterval = f.holdTime / 2", ["C06"]),
+ "c06-min-to-max": ("fsm.go", "if f.peer.options.holdTime < f.holdTime {", "if f.peer.options.holdTime > f.holdTime {", ["C06"]),
+ "c06-no-restart-on-update": ("fsm.go", "\t\t\t\t\tif f.holdTime != 0 {\n\t\t\t\t\t\tf.drainAndResetHoldTimer()\n\t\t\t\t\t}\n\t\t\t\t\tcontinue\n\t\t\t\tdefault:", "\t\t\t\t\tcontinue\n\t\t\t\tdefault:", ["C06"]),
+ "c06-restart-although-zero": ("fsm.go", "\t\t\t\t\tif f.holdTime != 0 {\n\t\t\t\t\t\tf.drainAndResetHoldTimer()\n\t\t\t\t\t}\n\t\t\t\t\tcontinue\n\t\t\t\tcase updateMessage:", "\t\t\t\t\tf.drainAndResetHoldTimer()\n\t\t\t\t\tcontinue\n\t\t\t\tcase updateMessage:", ["C06"]),
+ "c06-longhold-kept": ("fsm.go", "\t\t\t\t\tif !f.holdTimer.Stop() {\n\t\t\t\t\t\tselect {\n\t\t\t\t\t\tcase <-f.holdTimer.C:\n\t\t\t\t\t\tdefault:\n\t\t\t\t\t\t}\n\t\t\t\t\t}\n", "", ["C06"]),
+ "c07-unfix-d3": ("peer.go", "if dominant == (i == out) {", "if dominant && i == out {", ["C07"]),
+ "c07-dominance-flipped": ("peer.go", "dominant := localID > remoteID ||", "dominant := localID < remoteID ||", ["C07"]),
+ "c07-no-as-tiebreak": ("peer.go", "(localID == remoteID) && (p.config.LocalAS > p.config.RemoteAS)", "(localID == remoteID) && false", ["C07"]),
+ "c07-cease-on-survivor": ("peer.go", "\t\t\t\t\tp.disableFSM(other(i)) // wait for it to stop completely\n\t\t\t\t\tp.sendTransitionToFSM(i, t)", "\t\t\t\t\tp.disableFSM(other(i)) // wait for it to stop completely\n\t\t\t\t\tp.disableFSM(i)", ["C07"]),
+ "c10-no-cease-established": ("fsm.go", "\t\t\tcase <-f.closeCh:\n\t\t\t\tn := newNotification(NOTIF_CODE_CEASE, 0, nil)\n\t\t\t\tf.sendNotification(n) // nolint: errcheck\n\t\t\t\treturn disabledState, newNotificationError(n, true)\n\t\t\tcase <-f.holdTimer.C:\n\t\t\t\tn := newNotification(NOTIF_CODE_HOLD_TIMER_EXPIRED, 0, nil)\n\t\t\t\tf.sendNotification(n) // nolint: errcheck\n\t\t\t\treturn idleState, newNotificationError(n, true)\n\t\t\tcase <-f.keepAliveTimer.C:\n\t\t\t\terr := f.sendKeepAlive()\n\t\t\t\tif err != nil {\n\t\t\t\t\treturn idleState, fmt.Errorf(\"error sending keepAlive: %w\", err)\n\t\t\t\t}\n\t\t\t\tresetKATimerCh <- struct{}{}", "\t\t\tcase <-f.closeCh:\n\t\t\t\tn := newNotification(NOTIF_CODE_CEASE, 0, nil)\n\t\t\t\treturn disabledState, newNotificationError(n, true)\n\t\t\tcase <-f.holdTimer.C:\n\t\t\t\tn := newNotification(NOTIF_CODE_HOLD_TIMER_EXPIRED, 0, nil)\n\t\t\t\tf.sendNotification(n) // nolint: errcheck\n\t\t\t\treturn idleState, newNotificationError(n, true)\n\t\t\tcase <-f.keepAliveTimer.C:\n\t\t\t\terr := f.sendKeepAlive()\n\t\t\t\tif err != nil {\n\t\t\t\t\treturn idleState, fmt.Errorf(\"error sending keepAlive: %w\", err)\n\t\t\t\t}\n\t\t\t\tresetKATimerCh <- struct{}{}", ["C10"]),
+ "c10-skip-conn-cleanup": ("fsm.go", "\tf.cleanupConnAndReader()\n\tfor _, t := range []*time.Timer{", "\tfor _, t := range []*time.Timer{", ["C10"]),
+ "c10-skip-disable-in": ("peer.go", "\t\tp.disableFSM(out)\n\t\tp.disableFSM(in)\n\t\tp.startupDelayTimer.Stop()", "\t\tp.disableFSM(out)\n\t\tp.startupDelayTimer.Stop()", ["C10", "C01"]),
+ "c10-no-stop-peers": ("server.go", "\t\tfor _, peer := range s.peers {\n\t\t\tpeer.stop()\n\t\t}\n\t\ts.serving = false", "\t\ts.serving = false", ["C10"]),
+ "c10-unfix-d7": ("fsm.go", "\tif dr := <-f.dialResultCh; dr != nil && dr.conn != nil {\n\t\tdr.conn.Close()\n\t}", "\t<-f.dialResultCh", ["C10"]),
+ "c10-no-cease-midtransition": ("fsm.go", "\t\t\tt.from > activeState {", "\t\t\tt.from > openSentState {", ["C10", "C07"]),
+ "c11-no-idlehold-reset": ("fsm.go", "\t\tf.idleHoldTimer.Reset(f.peer.options.idleHoldTime)\n", "\t\tf.idleHoldTimer.Reset(0)\n", ["C11"]),
+ "c11-no-redial-after-retry": ("fsm.go", "\t\t\tif dr.err != nil {\n\t\t\t\tf.connectRetryTimer = time.NewTimer(f.peer.options.connectRetryTime)\n\t\t\t\tf.dialPeer()\n\t\t\t\tcontinue\n\t\t\t}", "\t\t\tif dr.err != nil {\n\t\t\t\tf.connectRetryTimer = time.NewTimer(f.peer.options.connectRetryTime)\n\t\t\t\tf.dialResultCh = nil\n\t\t\t\tf.cancelDialFn = nil\n\t\t\t\tcontinue\n\t\t\t}", ["C11"]),
+ "c11-no-enable-out": ("peer.go", "\t\tp.disableFSM(i)\n\t\tp.enableFSM(out, nil)", "\t\tp.disableFSM(i)", ["C11"]),
+ "c11-passive-dials": ("peer.go", "\tif i == out && p.options.passive {\n\t\treturn\n\t}", "\tif i == out && p.options.passive && conn != nil {\n\t\treturn\n\t}", ["C11", "C20"]),
+ "c12-never-damp": ("notification_error.go", "return n.notification.Code != NOTIF_CODE_CEASE", "return false", ["C12"]),
+ "c12-damp-cease": ("notification_error.go", "return n.notification.Code != NOTIF_CODE_CEASE", "return true", ["C12", "C11"]),
+ "c12-cap-600": ("peer.go", "errorDelayMaxTime = time.Second * 300", "errorDelayMaxTime = time.Second * 600", ["C12"]),
+ "c12-never-clear-holddown": ("peer.go", "\t\t\tp.enableFSM(out, nil)\n\t\t\tp.inHoldDown = false", "\t\t\tp.enableFSM(out, nil)", ["C12"]),
+ "c12-never-set-holddown": ("peer.go", "\t\t\tp.updateStartupDelay()\n\t\t\tp.inHoldDown = true", "\t\t\tp.updateStartupDelay()", ["C12", "C13"]),
+ "c12-no-doubling": ("peer.go", "p.startupDelay = min(2*p.startupDelay, errorDelayMaxTime)", "p.startupDelay = min(p.startupDelay, errorDelayMaxTime)", ["C12"]),
+ "c12-amnesia-gt": ("peer.go", "errorAmnesiaTime = time.Second * 300", "errorAmnesiaTime = time.Second * 600", ["C12"]),
+ "c12-only-out-damps": ("peer.go", "func (p *peer) handleError(i int, err error) {", "func (p *peer) handleError(i int, err error) {\n\tif i == in {\n\t\treturn\n\t}", ["C12"]),
+ "c13-invert-dst": ("server.go", "if err != nil || p.options.localAddress != laddr {", "if err != nil || p.options.localAddress == laddr {", ["C13"]),
+ "c13-unknown-not-closed": ("server.go", "\tp, exists := s.peers[h]\n\tif !exists {\n\t\tconn.Close()\n\t\treturn\n\t}", "\tp, exists := s.peers[h]\n\tif !exists {\n\t\treturn\n\t}", ["C13"]),
+ "c13-key-on-local": ("server.go", "h, _, err := net.SplitHostPort(conn.RemoteAddr().String())", "h, _, err := net.SplitHostPort(conn.LocalAddr().String())", ["C13"]),
+ "c20-insert-before-check": ("server.go", "\t_, exists := s.peers[config.RemoteAddress.String()]\n\tif exists {\n\t\treturn ErrPeerAlreadyExists\n\t}\n\tp := newPeer(config, s.id, plugin, o)", "\t_, exists := s.peers[config.RemoteAddress.String()]\n\tp := newPeer(config, s.id, plugin, o)\n\tif exists {\n\t\ts.peers[p.config.RemoteAddress.String()].config = config\n\t\treturn ErrPeerAlreadyExists\n\t}", ["C20"]),
+ "c20-delete-unlocked": ("server.go", "func (s *Server) GetPeer(ip netip.Addr) (PeerConfig, error) {\n\ts.mu.Lock()\n\tdefer s.mu.Unlock()\n", "func (s *Server) GetPeer(ip netip.Addr) (PeerConfig, error) {\n", []),
+ "c20-wrong-sentinel": ("server.go", "\tp, exists := s.peers[ip.String()]\n\tif !exists {\n\t\treturn ErrPeerNotExist\n\t}\n\tif s.serving {", "\tp, exists := s.peers[ip.String()]\n\tif !exists {\n\t\treturn ErrPeerAlreadyExists\n\t}\n\tif s.serving {", ["C20"]),
+ "c20-start-not-serving": ("server.go", "\tif s.serving {\n\t\tp.start()\n\t}", "\tp.start()", ["C20"]),
+ "c20-unfix-d5": ("server.go", "\tif p.LocalAS == 0 || p.RemoteAS == 0 {", "\tif opts.localAddress.IsValid() && (p.LocalAS == 0 || p.RemoteAS == 0) {", ["C20"]),
+ "c20-no-stop-on-delete": ("server.go", "\tif s.serving {\n\t\tp.stop()\n\t}\n\tdelete(s.peers, ip.String())", "\tdelete(s.peers, ip.String())", ["C20", "C10"]),
+ "c20-delete-wrong-order": ("server.go", "\tif s.serving {\n\t\tp.stop()\n\t}\n\tdelete(s.peers, ip.String())\n\treturn nil", "\tdelete(s.peers, ip.String())\n\tif s.serving {\n\t\ts.mu.Unlock()\n\t\tp.stop()\n\t\ts.mu.Lock()\n\t}\n\treturn nil", []),
+ "c10-unfix-d4": ("peer.go", "func (p *peer) getFSMTransitionCh(f *fsm) chan stateTransition {\n\treturn p.transitionCh[f.dir]\n}", "func (p *peer) getFSMTransitionCh(f *fsm) chan stateTransition {\n\tif f == p.fsms[out] {\n\t\treturn p.transitionCh[out]\n\t}\n\treturn p.transitionCh[in]\n}", ["C10"]),
+ "c10-unfix-d8": ("fsm.go", "\t<-kaManagerDoneCh\n", "", ["C10"]),
+ "c05-unfix-d2b": ("fsm.go", "\t\t\t\t\tif f.holdTime != 0 {\n\t\t\t\t\t\tf.drainAndResetHoldTimer()\n\t\t\t\t\t}\n\t\t\t\t\treturn establishedState, nil", "\t\t\t\t\tf.drainAndResetHoldTimer()\n\t\t\t\t\treturn establishedState, nil", ["C06", "C05"]),
 }
 
 def sh(cmd, **kw):
